@@ -9,7 +9,118 @@ use crate::props::{c12, c17};
 use crate::runner::Fail;
 use arbitrary::Unstructured;
 
-pub const TARGETS: &[(&str, &[&str])] = &[("fz_parse", &["C09", "C10"]), ("fz_notation", &["C05"]), ("fz_range", &["C06", "C12", "C17"])];
+pub const TARGETS: &[(&str, &[&str])] = &[("fz_parse", &["C09", "C10"]), ("fz_notation", &["C05"]), ("fz_range", &["C06", "C12", "C17"]), ("fz_eval", &["C02", "C04"])];
+
+/// bytes -> a small evaluator configuration built from range "building blocks" (explicit combos,
+/// blocker ranges around one card, card pools, sized ranges around powers of two, clones of an
+/// earlier seat), optional scope() calls and calls after exhaustion.  Coverage guidance (with
+/// value profiling) can then discover size thresholds and shape conditions inside the evaluator.
+pub fn decode_eval(data: &[u8]) -> arbitrary::Result<crate::props::c04::Case> {
+    use crate::cards::{all_combos, norm_pair};
+    use crate::evalmodel::*;
+    let mut u = Unstructured::new(data);
+    let a = u.int_in_range(0..=51u8)?;
+    let mut b = u.int_in_range(0..=50u8)?;
+    if b >= a {
+        b += 1;
+    }
+    let mut c = u.int_in_range(0..=49u8)?;
+    for x in [a.min(b), a.max(b)] {
+        if c >= x {
+            c += 1;
+        }
+    }
+    let flop = [a, b, c];
+    let n = u.int_in_range(0..=4usize)?;
+    let all = all_combos();
+    let mut ranges: Vec<RangeSpec> = vec![];
+    const SIZES: [usize; 16] = [1, 2, 3, 7, 8, 9, 15, 16, 17, 31, 32, 33, 63, 64, 65, 128];
+    for _ in 0..n {
+        let kind = u.int_in_range(0..=4u8)?;
+        let wmode = u.int_in_range(0..=3u8)?;
+        let mut r = match kind {
+            0 => {
+                let k = u.int_in_range(1..=6usize)?;
+                let mut m = std::collections::BTreeMap::new();
+                for _ in 0..k {
+                    let p = all[u.int_in_range(0..=1325usize)?];
+                    m.insert(p, 1.0f32);
+                }
+                RangeSpec { combos: m.into_iter().map(|(p, w)| (p.0, p.1, w)).collect() }
+            }
+            1 => holding_range(u.int_in_range(0..=51u8)?, u.int_in_range(1..=51usize)?, u.arbitrary::<u16>()? as u64, false),
+            2 => {
+                let m = u.int_in_range(4..=9usize)?;
+                let mut cards: Vec<u8> = vec![];
+                for _ in 0..m {
+                    let x = u.int_in_range(0..=51u8)?;
+                    if !cards.contains(&x) {
+                        cards.push(x);
+                    }
+                }
+                let mask: u64 = u.arbitrary()?;
+                let mut combos = vec![];
+                let mut bit = 0;
+                for i in 0..cards.len() {
+                    for j in (i + 1)..cards.len() {
+                        if mask >> bit & 1 == 1 {
+                            let p = norm_pair(cards[i], cards[j]);
+                            combos.push((p.0, p.1, 1.0f32));
+                        }
+                        bit += 1;
+                    }
+                }
+                if combos.is_empty() && cards.len() >= 2 {
+                    let p = norm_pair(cards[0], cards[1]);
+                    combos.push((p.0, p.1, 1.0));
+                }
+                combos.sort_by_key(|c| (c.0, c.1));
+                combos.dedup_by_key(|c| (c.0, c.1));
+                RangeSpec { combos }
+            }
+            3 => {
+                let size = if u.arbitrary::<bool>()? { SIZES[u.int_in_range(0..=15usize)?] } else { u.int_in_range(1..=300usize)? };
+                sized_range(size, u.arbitrary::<u16>()? as u64, false)
+            }
+            _ => {
+                if ranges.is_empty() {
+                    sized_range(2, 7, false)
+                } else {
+                    ranges[u.int_in_range(0..=ranges.len() - 1)?].clone()
+                }
+            }
+        };
+        if r.combos.is_empty() {
+            r = sized_range(1, 3, false);
+        }
+        for (i, cb) in r.combos.iter_mut().enumerate() {
+            cb.2 = match wmode {
+                0 => 1.0,
+                1 => [1.0, 0.5, 0.25, 0.0][i % 4],
+                2 => 0.5,
+                _ => [0.75, 1.0][i % 2],
+            };
+        }
+        ranges.push(r);
+    }
+    let mut cfg = Config { flop, ranges, scope: None };
+    // cost: the window actually walked is short (<= 48 positions), the product of the range sizes
+    // is cut to 600
+    fit_budget(&mut cfg, 1176 * 600);
+    let ns = u.int_in_range(1..=3usize)?;
+    let mut scopes = vec![];
+    for _ in 0..ns {
+        let x = u.int_in_range(0..=1176u16)?;
+        let d = u.int_in_range(0..=48u16)?;
+        scopes.push((x, (x + d).min(1176)));
+    }
+    let extra_next = match u.int_in_range(0..=9u8)? {
+        0..=6 => u.int_in_range(0..=3u32)?,
+        7 | 8 => u.int_in_range(4..=300u32)?,
+        _ => u.int_in_range(300..=5000u32)?,
+    };
+    Ok(crate::props::c04::Case { cfg, scopes, extra_next })
+}
 
 fn lit(u: &mut Unstructured) -> arbitrary::Result<Option<String>> {
     Ok(match u.int_in_range(0..=7u8)? {
@@ -106,6 +217,18 @@ pub fn run_target(target: &str, data: &[u8]) -> Result<(), (&'static str, Fail)>
             c12::check_range(&range).map_err(|f| ("C12", f))?;
             c17::check(&c17::Case { range, seed }).map_err(|f| ("C17", f))?;
             Ok(())
+        }
+        "fz_eval" => {
+            let Ok(case) = decode_eval(data) else { return Ok(()) };
+            if !case.cfg.valid() {
+                return Ok(());
+            }
+            if case.cfg.ranges.iter().any(|r| r.combos.is_empty()) || case.cfg.ranges.is_empty() {
+                return Ok(());
+            }
+            // the scoped run against the enumeration model restricted to the window: deals,
+            // probabilities (C02) and window/exhaustion behaviour (C04) at once
+            crate::props::c04::check_window_model(&case).map(|_| ()).map_err(|f| (if f.sig.starts_with("scope") || f.sig == "not-exhausted" { "C04" } else { "C02" }, f))
         }
         _ => Ok(()),
     }
